@@ -140,3 +140,35 @@ def _std_struct_eq(eng, m, args, fr, dty):
     from .engine import Bool
     e = struct_eq(eng, args[0], args[1], fr)
     return Bool(z3.Not(e) if m.group(2) == 'ne' else e)
+
+
+@model(r'^<(.+) as Clone>::clone_from$')
+def _clone_from(eng, m, args, fr, dty):
+    from .engine import deep_copy, UNIT
+    dst, src = args
+    eng.set_at(dst.cell, dst.proj, deep_copy(eng.deref(src, fr)), fr)
+    return UNIT
+
+
+@model(r'^<impl Iterator<.*> as Iterator>::next$|^<&mut impl Iterator<.*> as Iterator>::next$')
+def _impl_iter_next(eng, m, args, fr, dty):
+    return _generic_iter_next(eng, m, args, fr, dty)
+
+
+@model(r'^(std::result::)?Result::<.*>::inspect::<.*>$|^(std::option::)?Option::<.*>::inspect::<.*>$')
+def _inspect(eng, m, args, fr, dty):
+    from .engine import Ref, Cell
+    v, clo = args
+    if v.variant in ('Ok', 'Some'):
+        eng.call_closure(clo, [Ref(Cell(v.fields[0]))])
+    return v
+
+
+@model(r'^RefCell::<.*>::replace_with::<.*>$')
+def _refcell_replace_with(eng, m, args, fr, dty):
+    from .engine import Ref
+    c = eng.deref(args[0], fr)
+    old = c.v
+    new = eng.call_closure(args[1], [Ref(c)])
+    c.v = new
+    return old
